@@ -203,20 +203,15 @@ Theorem C04_size_hint_ordered : forall dcf rackf (g : ring N) pre t s dc,
    <= snd (rs_ordered_hint dcf rackf g pre t r))%nat.
 Proof. exact ordered_hint_bounds. Qed.
 
-(* with_computed_shard: every replica a view yields is paired with ScyllaDB's shard of the token
-   on that node (C11's specification) — 0 for a node without sharder — and it is below the node's
-   shard count *)
-Theorem C04_shards : forall sharderf t l n sh,
-  In (n, sh) (with_shards sharderf t l) ->
-  In n l /\ sh = spec_node_shard sharderf t n /\
-  (forall nr msb, sharderf n = Some (nr, msb) -> (0 < nr)%N -> (sh < nr)%N).
-Proof.
-  exact (fun sharderf t l n sh H =>
-    let '(conj H1 H2) := with_shards_spec sharderf t l n sh H in
-    conj H1 (conj H2 (fun nr msb E Hnr =>
-      eq_ind_r (fun x => (x < nr)%N)
-        (eq_ind (computed_shard sharderf t n) (fun x => (x < nr)%N) (computed_shard_lt sharderf t n nr msb E Hnr) _ (computed_shard_spec sharderf t n)) H2))).
-Qed.
+(* with_computed_shard: every replica a view yields is paired with [shard_of] of its node's
+   sharder applied to the token — C11's model function, for which C11_shard_spec (= ScyllaDB's
+   algorithm) and C11_shard_lt (< nr_shards) are proved in Props/C11.v — and with 0 for a node
+   without sharder; the nodes themselves are unchanged *)
+Theorem C04_shards : forall sharderf t l,
+  map fst (with_shards sharderf t l) = l /\
+  (forall n sh, In (n, sh) (with_shards sharderf t l) ->
+     In n l /\ sh = match sharderf n with Some (nr, msb) => shard_of nr msb t | None => 0%N end).
+Proof. exact (fun sharderf t l => conj (with_shards_nodes sharderf t l) (with_shards_spec sharderf t l)). Qed.
 
 (* ---- tablet-backed replica sets (ReplicaSetInner::PlainSharded) ---------------------------
    On a table that has tablets the set is the owning tablet's replica list (Model/Tablets.v, C15),
